@@ -701,7 +701,10 @@ static void vbi_proxyd_forward_data( int dev_idx )
       pthread_mutex_unlock(&p_proxy_dev->queue_mutex);
    }
    else
+   {
+      VERIF_TRACE("\"e\":\"overflow\"");
       dprintf(DBG_MSG, "forward_data: queue overflow\n");
+   }
 }
 
 /* ----------------------------------------------------------------------------
